@@ -26,7 +26,7 @@ LEVEL = "fault_enumeration"
 RULE = ("fault site = each layer of the transport stack (network, segments, noise, coder, logger) and, in the protocol variant, the "
         "protocol layer group and the application, x direction (down/up) x position of the failing operation in generated sequences "
         "of 2-3 sender tasks (1-3 stanzas each) and 0-3 incoming stanzas, interleaved by a generated schedule; natural faults: "
-        "unencodable attribute value, 16 MiB frame, send before login, undecodable server frame, picture notification without "
+        "unencodable attribute value, frames from the smallest size that does not fit (2^24 - 16 bytes of plaintext) upward, send before login, undecodable server frame, picture notification without "
         "set/delete, stream:error without type, raising application callback; follow-ups: a send from a new thread, a send from a "
         "thread that already failed, an incoming stanza, then a disconnect + reconnect + the same follow-ups. enumerated: every "
         "(site, direction, variant) with a fixed sequence; generated: the rest. Login race: 2-4 stanzas sent right behind the handshake "
@@ -361,7 +361,7 @@ def _run(case, out, rig, variant, fault):
                 stanza = bad_stanza(variant, ident) if op == "bad" else out_stanza(variant, ident)
                 try:
                     if op == "oversize":
-                        rig.stack.getLayer(3).toLower(bytearray(2 ** 24))
+                        rig.stack.getLayer(3).toLower(bytearray(fault.get("size", 2 ** 24)))
                     else:
                         rig.top.toLower(stanza)
                     results[ident] = "ok"
@@ -549,6 +549,12 @@ def _enum_sites():
             for nth in (1, 2):
                 yield {"sub": "fault", "variant": variant, "fault": {"kind": "inject", "site": site, "dir": d, "nth": nth},
                        "tasks": [["ok", "ok"], ["ok"]], "incoming": ["receipt", "receipt", "receipt"], "choices": [], "reconnect": True}
+        if variant == "core":
+            # frames around the largest size the 24-bit length header (minus the 16-byte tag) can carry: all must be refused
+            # without upsetting the session
+            for size in (2 ** 24 - 16, 2 ** 24 - 15, 2 ** 24 - 1, 2 ** 24 + 5):
+                yield {"sub": "fault", "variant": variant, "fault": {"kind": "oversize", "size": size},
+                       "tasks": [["ok", "oversize", "ok"], ["ok"]], "incoming": ["receipt"], "choices": [], "reconnect": True}
         for kind, tasks, incoming in (("bad_attr", [["ok", "bad", "ok"], ["ok"]], ["receipt"]),
                                       ("oversize", [["ok", "oversize", "ok"], ["ok"]], ["receipt"]),
                                       ("not_ready", [["ok"], ["ok"]], ["receipt"]),
@@ -579,6 +585,8 @@ def case_strategy():
             kinds = ["bad_attr", "garbage", "not_ready"] + (["oversize"] if variant == "core" else ["picture_bad", "streamerror_bad", "app_raises"])
             kind = draw(st.sampled_from(kinds))
             fault = {"kind": kind}
+            if kind == "oversize":
+                fault["size"] = draw(st.sampled_from([2 ** 24 - 16, 2 ** 24 - 16, 2 ** 24 - 15, 2 ** 24, 2 ** 24 + 1000]))
             if kind in ("bad_attr", "oversize"):
                 ti = draw(st.integers(0, ntasks - 1))
                 pos = draw(st.integers(0, len(tasks[ti])))
